@@ -369,12 +369,13 @@ def run(db: DB, rep: Report) -> None:
     # ---- T6 --------------------------------------------------------------------
     rep.rule("T6", "sibling predicates for the payload filter agree", 2)
     def filter_pred(f: FuncInfo):
+        """the if-statement whose test reads the label returned by get_fiber_trace"""
+        labels = {n.targets[0].id for n in walk_no_nested(f.node) if isinstance(n, ast.Assign) and
+                  isinstance(n.targets[0], ast.Name) and "get_fiber_trace" in paths.called_names([n.value])}
         for n in walk_no_nested(f.node):
-            if isinstance(n, ast.If):
+            if isinstance(n, ast.If) and (paths.load_names(n.test) & labels):
                 atoms = paths.conjuncts(n.test, True)
-                txt = [norm(a) for a, p in atoms if p]
-                if any("[:11]" in t for t in txt):
-                    return n, txt
+                return n, [norm(a) for a, p in atoms if p]
         return None, []
     n1, a1 = filter_pred(Mx.methods["get_collected_tensor_info"])
     n2, a2 = filter_pred(gt)
